@@ -38,7 +38,7 @@ class ConcreteOps:
     def eq(self, a, b, tol=None):
         if a is None or b is None: return a is None and b is None
         a, b = self.num(a), self.num(b)
-        if a != a and b != b: return True          # nan on both sides (domain errors of log/sqrt)
+        if not math.isfinite(a) and not math.isfinite(b): return True   # domain errors on both sides (log/sqrt of a negative, 0 ** negative: nan here, inf in numpy)
         if a == b: return True                     # covers equal infinities
         tol = self.RTOL if tol is None else tol
         return abs(a - b) <= tol * max(1.0, abs(a), abs(b))
@@ -474,9 +474,9 @@ def run_scenarios(scens, patches_cm, timeout_ms=10000, max_paths=4000, wall_s=12
                 if vals is None:
                     continue
                 cc = dict(scen.consts)
-                for name, fn in scen.dyn_consts.items():
-                    cc[name] = fn(vals)
                 try:
+                    for name, fn in scen.dyn_consts.items():
+                        cc[name] = fn(vals)
                     claims = run(V(**vals, **cc), ConcreteOps())
                     bad = [l for l, c in claims if not c]
                 except (ZeroDivisionError, OverflowError):
